@@ -12,7 +12,10 @@
    has no hypothesis left; normalize / normalized_sparsity keep side conditions on the operator's input (0/0 in the code).
    History: before fix c019b1a the scan compared raw dict keys and non_negative={2: ..}, l1_reg={-1: ..} on order 3 was
    accepted (the table theorems needed the hypothesis "keys >= 0" and had refutation witnesses); the model follows the
-   repaired scan and the theorems hold for all int keys (Example C11_negative_key_alias_rejected). *)
+   repaired scan and the theorems hold for all int keys (Example C11_negative_key_alias_rejected).
+   Round 8: the exact input class of the two `_partial` theorems (..._feasible_iff_..., ..._end_to_end_exact), admm's `order` left at None
+   (fix a5b9e5b: mode 0; C11_admm_order_none_is_mode_0 etc.), the stopping rule with its comparisons as numbers (C11_stop_rule_numeric, ..._consequences), the documented
+   class on which 'any initialisation' fails with the real operators and every budget (C11_user_init_fixed_mode_refuted). *)
 From Coq Require Import List Arith Bool ZArith QArith Reals.
 From TLV Require Import Base.PyList Base.Tensor.
 From TLV Require Import Model.Constraints Proofs.ConstraintsProofs Proofs.ConstraintsProofsLoop Proofs.ConstraintsProofsKeys
@@ -21,7 +24,7 @@ From TLV Require Import Base.Ops Model.Prox Proofs.ProxProofsHard Proofs.ProxPro
 From TLV Require Import Proofs.ProxProofsUni Proofs.ConstraintsProofsUni Proofs.ConstraintsProofsFeasible.
 From TLV Require Import Model.ConstraintsOps Proofs.ConstraintsProofsStatic Proofs.ConstraintsProofsInit.
 From TLV Require Import Model.ConstraintsStop Proofs.ConstraintsProofsStop Proofs.ConstraintsProofsClass Proofs.ConstraintsProofsRefute.
-From TLV Require Import Model.ConstraintsNc Proofs.ConstraintsProofsNc.
+From TLV Require Import Model.ConstraintsNc Proofs.ConstraintsProofsNc Proofs.ConstraintsProofsExact.
 Import ListNotations.
 Close Scope R_scope. Close Scope Q_scope.
 
@@ -84,13 +87,25 @@ Theorem C11_key_outside_range_rejected : forall (P : Type) (truthy : P -> bool) 
 Proof. exact @zvalidate_table_bad. Qed.
 Print Assumptions C11_key_outside_range_rejected.
 
-(* (ii) admm returns the primal variable produced by the operator, for every budget and every residual test *)
+(* (ii) admm returns the primal variable produced by the operator, for every inner budget >= 1 and every residual test; with an inner
+   budget of 0 it returns its start - nothing is validated or projected (fix fe4edf7: `x_split = tl.transpose(x)` before the loop; before
+   that fix the code raised UnboundLocalError there) *)
 Theorem C11_admm_returns_operator_output : forall (M : Type) (msub madd : M -> M -> M) (R : M -> Prop) (n_iter : nat)
   (split : M -> M -> M) (conv : nat -> M -> M -> M -> bool) (prox : M -> res M) (x dual x' s d' : M),
   (forall v y, prox v = Ok y -> R y) ->
-  admm msub madd n_iter split conv prox x dual = Ok (x', s, d') -> R x' /\ 0 < n_iter.
+  admm msub madd n_iter split conv prox x dual = Ok (x', s, d') ->
+  (0 < n_iter -> R x') /\ (n_iter = 0 -> x' = x /\ s = x /\ d' = dual).
 Proof. exact @admm_range. Qed.
 Print Assumptions C11_admm_returns_operator_output.
+
+(* inner budget 0, whatever the outer budget, fixed modes and environment: the run returns the initialisation (the projected raw factors
+   for 'svd' / 'random', the user's own factors for a user CP tensor) *)
+Theorem C11_inner_budget_zero_returns_initialisation : forall (P M : Type) (dM : M) (op : kind -> P -> M -> M) (msub madd : M -> M -> M)
+  (val : nat -> res (option (kind * P))) (E : env (M := M)) (n : nat) (i0 : init (M := M)) (fixed : list nat) (n_outer : nat) (zero : M) (fs : list M),
+  constrained_cp dM op val msub madd E n i0 fixed n_outer 0 zero = Ok fs ->
+  exists fs0, initialize op val i0 = Ok fs0 /\ length fs = length fs0 /\ forall m, nth m fs dM = nth m fs0 dM.
+Proof. exact @cp_inner_zero. Qed.
+Print Assumptions C11_inner_budget_zero_returns_initialisation.
 
 (* (ii) skeleton of constrained_parafac: every validation function, outer/inner budget, environment, initialisation *)
 Theorem C11_skeleton : forall (P M : Type) (dM : M) (op : kind -> P -> M -> M) (msub madd : M -> M -> M)
@@ -99,9 +114,9 @@ Theorem C11_skeleton : forall (P M : Type) (dM : M) (op : kind -> P -> M -> M) (
   constrained_cp dM op val msub madd E n i0 fixed n_outer n_inner zero = Ok fs ->
   length fs = length (init_factors i0) /\
   (forall m, m < length fs ->
-     init_computed i0 = true \/ (In m (modes_list n fixed) /\ 0 < n_outer) ->
+     init_computed i0 = true \/ (In m (modes_list n fixed) /\ 0 < n_outer /\ 0 < n_inner) ->
      in_range op val m (nth m fs dM)) /\
-  (forall m, init_computed i0 = false -> ~ In m (modes_list n fixed) \/ n_outer = 0 ->
+  (forall m, init_computed i0 = false -> ~ In m (modes_list n fixed) \/ n_outer = 0 \/ n_inner = 0 ->
      nth m fs dM = nth m (init_factors i0) dM).
 Proof. exact @cp_skeleton. Qed.
 Print Assumptions C11_skeleton.
@@ -138,7 +153,7 @@ Theorem C11_returned_factor_is_operator_output : forall (P : Type) (truthy : P -
   (i0 : init (M := M)) (fixed : list nat) (n_outer n_inner : nat) (zero : M) (fs : list M) (m : nat) (k : kind)
   (s : @zspec P) (p : P),
   constrained_cp dM op (zvalidate truthy n sp) msub madd E n i0 fixed n_outer n_inner zero = Ok fs ->
-  m < length fs -> init_computed i0 = true \/ (In m (modes_list n fixed) /\ 0 < n_outer) ->
+  m < length fs -> init_computed i0 = true \/ (In m (modes_list n fixed) /\ 0 < n_outer /\ 0 < n_inner) ->
   In (k, s) sp -> zrequested truthy n s m p ->
   exists v, nth m fs dM = op k p v.
 Proof. exact @zcp_requested_in_range. Qed.
@@ -149,7 +164,7 @@ Theorem C11_returned_factor_validated : forall (P : Type) (truthy : P -> bool) (
   (op : kind -> P -> M -> M) (msub madd : M -> M -> M) (n : nat) (sp : list (kind * @zspec P)) (E : env (M := M))
   (i0 : init (M := M)) (fixed : list nat) (n_outer n_inner : nat) (zero : M) (fs : list M) (m : nat),
   constrained_cp dM op (zvalidate truthy n sp) msub madd E n i0 fixed n_outer n_inner zero = Ok fs ->
-  m < length fs -> init_computed i0 = true \/ (In m (modes_list n fixed) /\ 0 < n_outer) ->
+  m < length fs -> init_computed i0 = true \/ (In m (modes_list n fixed) /\ 0 < n_outer /\ 0 < n_inner) ->
   exists c v, nth m fs dM = prox_of op c v /\
     (forall k p, c = Some (k, p) <-> exists s, In (k, s) sp /\ zrequested truthy n s m p) /\
     (c = None <-> forall k s p, In (k, s) sp -> ~ zrequested truthy n s m p).
@@ -163,7 +178,7 @@ Theorem C11_returned_factor_feasible_partial : forall (P : Type) (truthy : P -> 
   (k : kind) (s : @zspec P) (p : P),
   (forall k p v, feas k p (op k p v)) ->
   constrained_cp dM op (zvalidate truthy n sp) msub madd E n i0 fixed n_outer n_inner zero = Ok fs ->
-  m < length fs -> init_computed i0 = true \/ (In m (modes_list n fixed) /\ 0 < n_outer) ->
+  m < length fs -> init_computed i0 = true \/ (In m (modes_list n fixed) /\ 0 < n_outer /\ 0 < n_inner) ->
   In (k, s) sp -> zrequested truthy n s m p ->
   feas k p (nth m fs dM).
 Proof. exact @zcp_feasible. Qed.
@@ -178,7 +193,7 @@ Theorem C11_non_negative_end_to_end : forall (P : Type) (truthy : P -> bool) (to
   (other : kind -> P -> mat -> mat) (dM : mat) (msub madd : mat -> mat -> mat) (n : nat) (sp : list (kind * @zspec P))
   (E : env (M := mat)) (i0 : init (M := mat)) (fixed : list nat) (n_outer n_inner : nat) (zero : mat) (fs : list mat) (m : nat),
   constrained_cp dM (op_c12 toR toN other) (zvalidate truthy n sp) msub madd E n i0 fixed n_outer n_inner zero = Ok fs ->
-  m < length fs -> init_computed i0 = true \/ (In m (modes_list n fixed) /\ 0 < n_outer) ->
+  m < length fs -> init_computed i0 = true \/ (In m (modes_list n fixed) /\ 0 < n_outer /\ 0 < n_inner) ->
   forall (s : @zspec P) (p : P), In (KNonNeg, s) sp -> zrequested truthy n s m p ->
   Forall (fun a : R => (0 <= a)%R) (concat (nth m fs dM)).
 Proof. exact @cp_nonneg. Qed.
@@ -189,7 +204,7 @@ Theorem C11_hard_sparsity_end_to_end : forall (P : Type) (truthy : P -> bool) (t
   (other : kind -> P -> mat -> mat) (dM : mat) (msub madd : mat -> mat -> mat) (n : nat) (sp : list (kind * @zspec P))
   (E : env (M := mat)) (i0 : init (M := mat)) (fixed : list nat) (n_outer n_inner : nat) (zero : mat) (fs : list mat) (m : nat),
   constrained_cp dM (op_c12 toR toN other) (zvalidate truthy n sp) msub madd E n i0 fixed n_outer n_inner zero = Ok fs ->
-  m < length fs -> init_computed i0 = true \/ (In m (modes_list n fixed) /\ 0 < n_outer) ->
+  m < length fs -> init_computed i0 = true \/ (In m (modes_list n fixed) /\ 0 < n_outer /\ 0 < n_inner) ->
   forall (s : @zspec P) (p : P), In (KHardSparsity, s) sp -> zrequested truthy n s m p ->
   nnzR (concat (nth m fs dM)) <= toN p.
 Proof. exact @cp_hard_sparsity. Qed.
@@ -201,7 +216,7 @@ Theorem C11_simplex_end_to_end : forall (P : Type) (truthy : P -> bool) (toR : P
   (other : kind -> P -> mat -> mat) (dM : mat) (msub madd : mat -> mat -> mat) (n : nat) (sp : list (kind * @zspec P))
   (E : env (M := mat)) (i0 : init (M := mat)) (fixed : list nat) (n_outer n_inner : nat) (zero : mat) (fs : list mat) (m : nat),
   constrained_cp dM (op_c12 toR toN other) (zvalidate truthy n sp) msub madd E n i0 fixed n_outer n_inner zero = Ok fs ->
-  m < length fs -> init_computed i0 = true \/ (In m (modes_list n fixed) /\ 0 < n_outer) ->
+  m < length fs -> init_computed i0 = true \/ (In m (modes_list n fixed) /\ 0 < n_outer /\ 0 < n_inner) ->
   forall (s : @zspec P) (p : P), In (KSimplex, s) sp -> zrequested truthy n s m p -> (0 < toR p)%R ->
   exists Z, nth m fs dM = cols_of Rops Z /\ Forall (fun z => length z = length (nth m fs dM)) Z /\
             Forall (fun z => Forall (fun a : R => (0 <= a)%R) z /\ lsum Rops z = toR p) Z.
@@ -213,7 +228,7 @@ Theorem C11_monotonicity_end_to_end : forall (P : Type) (truthy : P -> bool) (to
   (other : kind -> P -> mat -> mat) (dM : mat) (msub madd : mat -> mat -> mat) (n : nat) (sp : list (kind * @zspec P))
   (E : env (M := mat)) (i0 : init (M := mat)) (fixed : list nat) (n_outer n_inner : nat) (zero : mat) (fs : list mat) (m : nat),
   constrained_cp dM (op_c12 toR toN other) (zvalidate truthy n sp) msub madd E n i0 fixed n_outer n_inner zero = Ok fs ->
-  m < length fs -> init_computed i0 = true \/ (In m (modes_list n fixed) /\ 0 < n_outer) ->
+  m < length fs -> init_computed i0 = true \/ (In m (modes_list n fixed) /\ 0 < n_outer /\ 0 < n_inner) ->
   forall (s : @zspec P) (p : P), In (KMonotone, s) sp -> zrequested truthy n s m p ->
   exists Z, nth m fs dM = cols_of Rops Z /\ Forall (fun z => length z = length (nth m fs dM)) Z /\ Forall ndec Z.
 Proof. exact @cp_monotone. Qed.
@@ -226,7 +241,7 @@ Theorem C11_soft_sparsity_end_to_end : forall (P : Type) (truthy : P -> bool) (t
   (other : kind -> P -> mat -> mat) (dM : mat) (msub madd : mat -> mat -> mat) (n : nat) (sp : list (kind * @zspec P))
   (E : env (M := mat)) (i0 : init (M := mat)) (fixed : list nat) (n_outer n_inner : nat) (zero : mat) (fs : list mat) (m : nat),
   constrained_cp dM (op_c12 toR toN other) (zvalidate truthy n sp) msub madd E n i0 fixed n_outer n_inner zero = Ok fs ->
-  m < length fs -> init_computed i0 = true \/ (In m (modes_list n fixed) /\ 0 < n_outer) ->
+  m < length fs -> init_computed i0 = true \/ (In m (modes_list n fixed) /\ 0 < n_outer /\ 0 < n_inner) ->
   forall (s : @zspec P) (p : P), In (KSoftSparsity, s) sp -> zrequested truthy n s m p -> (0 < toR p)%R ->
   exists Z, nth m fs dM = cols_of Rops Z /\ Forall (fun z => length z = length (nth m fs dM)) Z /\
             Forall (fun z => (l1n Rops z <= toR p)%R) Z.
@@ -240,7 +255,7 @@ Theorem C11_unimodality_end_to_end : forall (P : Type) (truthy : P -> bool) (toR
   (other : kind -> P -> mat -> mat) (dM : mat) (msub madd : mat -> mat -> mat) (n : nat) (sp : list (kind * @zspec P))
   (E : env (M := mat)) (i0 : init (M := mat)) (fixed : list nat) (n_outer n_inner : nat) (zero : mat) (fs : list mat) (m : nat),
   constrained_cp dM (op_c12 toR toN other) (zvalidate truthy n sp) msub madd E n i0 fixed n_outer n_inner zero = Ok fs ->
-  m < length fs -> init_computed i0 = true \/ (In m (modes_list n fixed) /\ 0 < n_outer) ->
+  m < length fs -> init_computed i0 = true \/ (In m (modes_list n fixed) /\ 0 < n_outer /\ 0 < n_inner) ->
   forall (s : @zspec P) (p : P), In (KUnimodal, s) sp -> zrequested truthy n s m p ->
   exists Z, nth m fs dM = cols_of Rops Z /\ Forall (fun z => length z = length (nth m fs dM)) Z /\ Forall unimodalP Z.
 Proof. exact @cp_unimodal. Qed.
@@ -258,7 +273,7 @@ Theorem C11_hard_sparsity_columnwise : forall (P : Type) (truthy : P -> bool) (t
   (other : kind -> P -> mat -> mat) (dM : mat) (msub madd : mat -> mat -> mat) (n : nat) (sp : list (kind * @zspec P))
   (E : env (M := mat)) (i0 : init (M := mat)) (fixed : list nat) (n_outer n_inner : nat) (zero : mat) (fs : list mat) (m : nat),
   constrained_cp dM (op_c12 toR toN other) (zvalidate truthy n sp) msub madd E n i0 fixed n_outer n_inner zero = Ok fs ->
-  m < length fs -> init_computed i0 = true \/ (In m (modes_list n fixed) /\ 0 < n_outer) ->
+  m < length fs -> init_computed i0 = true \/ (In m (modes_list n fixed) /\ 0 < n_outer /\ 0 < n_inner) ->
   forall (s : @zspec P) (p : P), In (KHardSparsity, s) sp -> zrequested truthy n s m p ->
   forall c, In c (cols_of Rops (nth m fs dM)) -> nnzR c <= toN p.
 Proof. exact @cp_hard_sparsity_columns. Qed.
@@ -278,7 +293,7 @@ Theorem C11_returned_factor_feasible : forall (P : Type) (truthy : P -> bool) (t
   (other : kind -> P -> mat -> mat) (dM : mat) (msub madd : mat -> mat -> mat) (n : nat) (sp : list (kind * @zspec P))
   (E : env (M := mat)) (i0 : init (M := mat)) (fixed : list nat) (n_outer n_inner : nat) (zero : mat) (fs : list mat) (m : nat),
   constrained_cp dM (op_c12 toR toN other) (zvalidate truthy n sp) msub madd E n i0 fixed n_outer n_inner zero = Ok fs ->
-  m < length fs -> init_computed i0 = true \/ (In m (modes_list n fixed) /\ 0 < n_outer) ->
+  m < length fs -> init_computed i0 = true \/ (In m (modes_list n fixed) /\ 0 < n_outer /\ 0 < n_inner) ->
   forall (k : kind) (s : @zspec P) (p : P), In (k, s) sp -> zrequested truthy n s m p ->
   feas_c12 toR toN k p (nth m fs dM).
 Proof. exact @cp_feasible. Qed.
@@ -317,7 +332,7 @@ Theorem C11_normalize_end_to_end_partial : forall (P : Type) (truthy : P -> bool
   (other : kind -> P -> mat -> mat) (dM : mat) (msub madd : mat -> mat -> mat) (n : nat) (sp : list (kind * @zspec P))
   (E : env (M := mat)) (i0 : init (M := mat)) (fixed : list nat) (n_outer n_inner : nat) (zero : mat) (fs : list mat) (m : nat),
   constrained_cp dM (op_c12 toR toN other) (zvalidate truthy n sp) msub madd E n i0 fixed n_outer n_inner zero = Ok fs ->
-  m < length fs -> init_computed i0 = true \/ (In m (modes_list n fixed) /\ 0 < n_outer) ->
+  m < length fs -> init_computed i0 = true \/ (In m (modes_list n fixed) /\ 0 < n_outer /\ 0 < n_inner) ->
   forall (s : @zspec P) (p : P), In (KNormalize, s) sp -> zrequested truthy n s m p ->
   exists v : mat, nth m fs dM = op_c12 toR toN other KNormalize p v /\
     (rect v -> (0 < maxabs Rops (concat v))%R -> maxabs Rops (concat (nth m fs dM)) = 1%R).
@@ -331,7 +346,7 @@ Theorem C11_normalized_sparsity_end_to_end_partial : forall (P : Type) (truthy :
   (other : kind -> P -> mat -> mat) (dM : mat) (msub madd : mat -> mat -> mat) (n : nat) (sp : list (kind * @zspec P))
   (E : env (M := mat)) (i0 : init (M := mat)) (fixed : list nat) (n_outer n_inner : nat) (zero : mat) (fs : list mat) (m : nat),
   constrained_cp dM (op_c12 toR toN other) (zvalidate truthy n sp) msub madd E n i0 fixed n_outer n_inner zero = Ok fs ->
-  m < length fs -> init_computed i0 = true \/ (In m (modes_list n fixed) /\ 0 < n_outer) ->
+  m < length fs -> init_computed i0 = true \/ (In m (modes_list n fixed) /\ 0 < n_outer /\ 0 < n_inner) ->
   forall (s : @zspec P) (p : P), In (KNormSparsity, s) sp -> zrequested truthy n s m p ->
   exists v : mat, nth m fs dM = op_c12 toR toN other KNormSparsity p v /\
     (rect v -> sumsq Rops (hard_thresholding Rops (toN p) (concat v)) <> 0%R ->
@@ -339,6 +354,59 @@ Theorem C11_normalized_sparsity_end_to_end_partial : forall (P : Type) (truthy :
      forall c, In c (cols_of Rops (nth m fs dM)) -> nnzR c <= toN p).
 Proof. exact @cp_normalized_sparsity_rect. Qed.
 Print Assumptions C11_normalized_sparsity_end_to_end_partial.
+
+(* THE EXACT CLASS of the two `_partial` theorems (round 8): their side conditions cannot be weakened.  On a matrix proper the output of
+   max-normalisation has max |entry| = 1 IF AND ONLY IF the input is not zero, the output of normalised sparsity has unit l2 norm IF AND
+   ONLY IF the kept part of the input is not zero; on the complementary class the real-arithmetic model returns the zero matrix (the code:
+   0/0 = NaN) - so these two kinds leave their constraint set on exactly the input class of the known finding
+   zero_operator_input_divides_0_by_0 and nowhere else. *)
+Theorem C11_normalize_feasible_iff_input_nonzero : forall (P : Type) (toR : P -> R) (toN : P -> nat) (other : kind -> P -> mat -> mat) (p : P) (x : mat),
+  rect x ->
+  (maxabs Rops (concat (op_c12 toR toN other KNormalize p x)) = 1%R <-> (0 < maxabs Rops (concat x))%R) /\
+  (maxabs Rops (concat x) = 0%R -> all_zero (concat (op_c12 toR toN other KNormalize p x))).
+Proof. exact @op_normalize_exact. Qed.
+Print Assumptions C11_normalize_feasible_iff_input_nonzero.
+
+Theorem C11_normalized_sparsity_feasible_iff_kept_part_nonzero : forall (P : Type) (toR : P -> R) (toN : P -> nat) (other : kind -> P -> mat -> mat)
+  (p : P) (x : mat),
+  rect x ->
+  (sumsq Rops (concat (op_c12 toR toN other KNormSparsity p x)) = 1%R <-> sumsq Rops (hard_thresholding Rops (toN p) (concat x)) <> 0%R) /\
+  (sumsq Rops (hard_thresholding Rops (toN p) (concat x)) = 0%R -> all_zero (concat (op_c12 toR toN other KNormSparsity p x))).
+Proof. exact @op_normalized_sparsity_exact. Qed.
+Print Assumptions C11_normalized_sparsity_feasible_iff_kept_part_nonzero.
+
+(* ... and end to end: the factor returned for a mode with the request is the operator's output on some v, and (v a matrix proper) it lies
+   in the constraint set IF AND ONLY IF v (its kept part) is not zero *)
+Theorem C11_normalize_end_to_end_exact : forall (P : Type) (truthy : P -> bool) (toR : P -> R) (toN : P -> nat)
+  (other : kind -> P -> mat -> mat) (dM : mat) (msub madd : mat -> mat -> mat) (n : nat) (sp : list (kind * @zspec P))
+  (E : env (M := mat)) (i0 : init (M := mat)) (fixed : list nat) (n_outer n_inner : nat) (zero : mat) (fs : list mat) (m : nat)
+  (s : @zspec P) (p : P),
+  constrained_cp dM (op_c12 toR toN other) (zvalidate truthy n sp) msub madd E n i0 fixed n_outer n_inner zero = Ok fs ->
+  m < length fs -> init_computed i0 = true \/ (In m (modes_list n fixed) /\ 0 < n_outer /\ 0 < n_inner) ->
+  In (KNormalize, s) sp -> zrequested truthy n s m p ->
+  exists v : mat, nth m fs dM = op_c12 toR toN other KNormalize p v /\
+    (rect v -> (maxabs Rops (concat (nth m fs dM)) = 1%R <-> (0 < maxabs Rops (concat v))%R)).
+Proof. exact @cp_normalize_exact. Qed.
+Print Assumptions C11_normalize_end_to_end_exact.
+
+Theorem C11_normalized_sparsity_end_to_end_exact : forall (P : Type) (truthy : P -> bool) (toR : P -> R) (toN : P -> nat)
+  (other : kind -> P -> mat -> mat) (dM : mat) (msub madd : mat -> mat -> mat) (n : nat) (sp : list (kind * @zspec P))
+  (E : env (M := mat)) (i0 : init (M := mat)) (fixed : list nat) (n_outer n_inner : nat) (zero : mat) (fs : list mat) (m : nat)
+  (s : @zspec P) (p : P),
+  constrained_cp dM (op_c12 toR toN other) (zvalidate truthy n sp) msub madd E n i0 fixed n_outer n_inner zero = Ok fs ->
+  m < length fs -> init_computed i0 = true \/ (In m (modes_list n fixed) /\ 0 < n_outer /\ 0 < n_inner) ->
+  In (KNormSparsity, s) sp -> zrequested truthy n s m p ->
+  exists v : mat, nth m fs dM = op_c12 toR toN other KNormSparsity p v /\
+    (rect v -> (sumsq Rops (concat (nth m fs dM)) = 1%R <-> sumsq Rops (hard_thresholding Rops (toN p) (concat v)) <> 0%R)).
+Proof. exact @cp_normalized_sparsity_exact. Qed.
+Print Assumptions C11_normalized_sparsity_end_to_end_exact.
+
+(* both sides of the two equivalences occur: a non-zero 1 x 1 input is a matrix proper with positive max |entry| / non-zero kept part,
+   the zero input is a matrix proper with neither *)
+Example C11_exact_class_nonvacuous :
+  rect [[1%R]] /\ (0 < maxabs Rops (concat [[1%R]]))%R /\ sumsq Rops (hard_thresholding Rops 1 (concat [[1%R]])) <> 0%R /\
+  rect [[0%R]] /\ maxabs Rops (concat [[0%R]]) = 0%R /\ sumsq Rops (hard_thresholding Rops 0 (concat [[1%R]])) = 0%R.
+Proof. exact exact_class_nonvacuous. Qed.
 
 (* ---------------------------------------------------------------------------------------------------------------------------------
    GENUINE DEFECTS of the property (round 6).  (1) max-normalisation and normalised sparsity divide 0 by 0 when the operator's input has a
@@ -420,6 +488,29 @@ Print Assumptions C11_stop_rule_skips_criterion.
 
 (* non-vacuity on tags: an unknown criterion with three sweeps raises; with one sweep, a falsy tol_outer or a small constraint error it
    returns like a documented one *)
+(* the three comparisons as NUMBERS (Model/ConstraintsStop.v stop_env_num, here at the reals; an instance of stop_env, so every theorem
+   above holds of it): tol = tol_outer, cerr it = constraint_error after sweep it, err it = rec_errors[it] (arbitrary sequences).  The loop
+   stops after sweep `it` IFF tol_outer is non-zero (`if tol_outer:` - a negative tolerance is truthy), it >= 1, and the constraint error
+   is below the tolerance or else the criterion in force holds of rec_errors[-2] - rec_errors[-1]; it raises IFF tol_outer is non-zero,
+   it >= 1, the constraint error is not below the tolerance and the criterion is unknown.  Correspondence: Corr.C11 CStopNum executes
+   this rule at exact rationals on the sequences recorded in real runs and compares the number of sweeps. *)
+Theorem C11_stop_rule_numeric : forall (M : Type) (tol : R) (c : crit) (cerr err : nat -> R) (it : nat) (fs du : list M),
+  (stop_at (stop_env_num Rops tol c cerr err) it fs du = Ok true <->
+   tol <> 0%R /\ 1 <= it /\
+   ((cerr it < tol)%R \/ ((cerr it >= tol)%R /\
+      ((c = CrAbsRecError /\ (Rabs (err (it - 1)%nat - err it) < tol)%R) \/ (c = CrRecError /\ (err (it - 1)%nat - err it < tol)%R))))) /\
+  (stop_at (stop_env_num Rops tol c cerr err) it fs du = Err <-> tol <> 0%R /\ 1 <= it /\ (tol <= cerr it)%R /\ c = CrUnknown).
+Proof. intros; split; [apply stop_num_true | apply stop_num_err]. Qed.
+Print Assumptions C11_stop_rule_numeric.
+
+(* two consequences of the rule as coded (behaviour worth knowing, not defects of C11): with 'rec_error' and a positive tolerance a sweep
+   that does not decrease the reconstruction error ends the loop; with a negative tolerance 'abs_rec_error' never ends it *)
+Theorem C11_stop_rule_numeric_consequences : forall (M : Type) (tol : R) (c : crit) (cerr err : nat -> R) (it : nat) (fs du : list M),
+  (c = CrRecError -> (0 < tol)%R -> 1 <= it -> (err (it - 1)%nat <= err it)%R -> stop_at (stop_env_num Rops tol c cerr err) it fs du = Ok true) /\
+  (c = CrAbsRecError -> (tol < 0)%R -> (0 <= cerr it)%R -> stop_at (stop_env_num Rops tol c cerr err) it fs du = Ok false).
+Proof. intros; split; [apply rec_error_stops_on_increase | apply negative_tolerance_never_stops_abs]. Qed.
+Print Assumptions C11_stop_rule_numeric_consequences.
+
 Example C11_stopping_rule_examples :
   let truthy := fun p : nat => negb (Nat.eqb p 0) in
   let sp := zkeywords (fun k => match k with KNonNeg => ZScalar 1 | _ => ZNone end) in
@@ -438,7 +529,7 @@ Theorem C11_fit_transform_feasible : forall (P : Type) (truthy : P -> bool) (toR
   (other : kind -> P -> mat -> mat) (dM : mat) (msub madd : mat -> mat -> mat) (self : cp_object (P := P) (M := mat))
   (E : env (M := mat)) (n : nat) (zero : mat) (fs : list mat) (m : nat) (k : kind) (p : P),
   fit_transform truthy dM (op_c12 toR toN other) msub madd self E n zero = Ok fs ->
-  m < length fs -> init_computed (o_init self) = true \/ (In m (modes_list n (o_fixed self)) /\ 0 < o_outer self) ->
+  m < length fs -> init_computed (o_init self) = true \/ (In m (modes_list n (o_fixed self)) /\ 0 < o_outer self /\ 0 < o_inner self) ->
   zrequested truthy n (o_specs self k) m p -> feas_c12 toR toN k p (nth m fs dM).
 Proof. exact @fit_transform_feasible. Qed.
 Print Assumptions C11_fit_transform_feasible.
@@ -458,7 +549,7 @@ Theorem C11_n_const_none_ignores_request : forall (P M : Type) (truthy : P -> bo
   (sp : list (kind * @zspec P)) (order n_iter : nat) (split : M -> M -> M) (conv : nat -> M -> M -> M -> bool) (ls x dual : M),
   proximal_operator_nc truthy op None sp order x = Ok x /\
   (0 < n_iter -> admm_nc truthy op msub madd None sp order n_iter split conv ls x dual = Ok (ls, split x dual, dual)) /\
-  admm_nc truthy op msub madd None sp order 0 split conv ls x dual = Err.
+  (forall nc, admm_nc truthy op msub madd nc sp order 0 split conv ls x dual = Ok (x, x, dual)).
 Proof. exact @n_const_none_ignores_request. Qed.
 Print Assumptions C11_n_const_none_ignores_request.
 
@@ -469,6 +560,38 @@ Theorem C11_n_const_some_is_the_model : forall (P M : Type) (truthy : P -> bool)
   admm msub madd n_iter split conv (proximal_operator op (zvalidate truthy n sp) order) x dual.
 Proof. exact @n_const_some_is_the_model. Qed.
 Print Assumptions C11_n_const_some_is_the_model.
+
+(* admm's own `order` parameter left at its default None (Model/ConstraintsNc.v admm_py; since fix a5b9e5b the code starts with
+   `if order is None: order = 0`): the call is the call with order = 0 - with n_const = n the returned primal variable is the output of
+   the operator validate_constraints selects for MODE 0 (the identity if mode 0 is unconstrained; inner budget >= 1), a request that
+   validate_constraints rejects is rejected; proximal_operator with an explicit order=None raises when a number of constraints is given
+   and returns its input when n_const is None.  constrained_parafac always passes the loop variable (corr:C11-static). *)
+Theorem C11_admm_order_none_is_mode_0 : forall (P M : Type) (truthy : P -> bool) (op : kind -> P -> M -> M) (msub madd : M -> M -> M)
+  (nc : option nat) (sp : list (kind * @zspec P)) (n_iter : nat) (split : M -> M -> M) (conv : nat -> M -> M -> M -> bool) (ls x dual : M),
+  admm_py truthy op msub madd nc sp None n_iter split conv ls x dual = admm_py truthy op msub madd nc sp (Some 0) n_iter split conv ls x dual.
+Proof. exact @admm_order_none_is_mode_0. Qed.
+Print Assumptions C11_admm_order_none_is_mode_0.
+
+Theorem C11_admm_order_none_applies_mode_0 : forall (P M : Type) (truthy : P -> bool) (op : kind -> P -> M -> M) (msub madd : M -> M -> M)
+  (n : nat) (sp : list (kind * @zspec P)) (n_iter : nat) (split : M -> M -> M) (conv : nat -> M -> M -> M -> bool) (ls x dual x' s d' : M),
+  admm_py truthy op msub madd (Some n) sp None n_iter split conv ls x dual = Ok (x', s, d') ->
+  (0 < n_iter -> exists c v, zvalidate truthy n sp 0 = Ok c /\ x' = prox_of op c v) /\ (n_iter = 0 -> x' = x /\ s = x /\ d' = dual).
+Proof. exact @admm_order_none_applies_mode_0. Qed.
+Print Assumptions C11_admm_order_none_applies_mode_0.
+
+Theorem C11_admm_order_none_rejects : forall (P M : Type) (truthy : P -> bool) (op : kind -> P -> M -> M) (msub madd : M -> M -> M)
+  (n : nat) (sp : list (kind * @zspec P)) (n_iter : nat) (split : M -> M -> M) (conv : nat -> M -> M -> M -> bool) (ls x dual : M),
+  zvalidate truthy n sp 0 = Err -> 0 < n_iter ->
+  admm_py truthy op msub madd (Some n) sp None n_iter split conv ls x dual = Err.
+Proof. exact @admm_order_none_rejects. Qed.
+Print Assumptions C11_admm_order_none_rejects.
+
+Theorem C11_proximal_operator_order_none : forall (P M : Type) (truthy : P -> bool) (op : kind -> P -> M -> M)
+  (n : nat) (sp : list (kind * @zspec P)) (x : M),
+  proximal_operator_py truthy op (Some n) sp None x = Err /\ proximal_operator_py truthy op None sp None x = Ok x /\
+  forall o, proximal_operator_py truthy op (Some n) sp (Some o) x = proximal_operator_nc truthy op (Some n) sp o x.
+Proof. exact @proximal_operator_order_none. Qed.
+Print Assumptions C11_proximal_operator_order_none.
 
 (* requests with two constraints on one mode are rejected by the decomposition, whatever the rest *)
 Theorem C11_decomposition_rejects_double : forall (P : Type) (truthy : P -> bool) (M : Type) (dM : M)
@@ -664,8 +787,35 @@ Example C11_user_init_zero_budget_not_projected :
   constrained_cp 0 (fun _ p _ => 100 + p) (zvalidate truthy 3 sp) (fun _ _ => 0) (fun _ _ => 0) E 3 (IUser [7; 8; 9]) [] 0 1 0
   = Ok [7; 8; 9] /\
   constrained_cp 0 (fun _ p _ => 100 + p) (zvalidate truthy 3 sp) (fun _ _ => 0) (fun _ _ => 0) E 3 (IUser [7; 8; 9]) [0] 1 1 0
-  = Ok [7; 101; 101].
-Proof. split; vm_compute; reflexivity. Qed.
+  = Ok [7; 101; 101] /\
+  constrained_cp 0 (fun _ p _ => 100 + p) (zvalidate truthy 3 sp) (fun _ _ => 0) (fun _ _ => 0) E 3 (IUser [7; 8; 9]) [] 3 0 0
+  = Ok [7; 8; 9] /\
+  constrained_cp 0 (fun _ p _ => 100 + p) (zvalidate truthy 3 sp) (fun _ _ => 0) (fun _ _ => 0) E 3 (IComputed [7; 8; 9]) [] 3 0 0
+  = Ok [101; 101; 101].
+Proof. repeat split; vm_compute; reflexivity. Qed.
+
+(* ... and the same class with the REAL operators, for EVERY outer budget, inner budget >= 1 and environment (C11_..._refuted: the headline
+   clause 'for any initialisation' fails on it): non_negative=True on every mode, a user CP tensor whose first factor has a negative entry,
+   fixed_modes=[0] - the run succeeds and factor 0 comes back as supplied, not non-negative.  The statement that holds is C11_skeleton /
+   C11_returned_factor_feasible (computed initialisation, or the mode is updated with outer budget >= 1). *)
+Theorem C11_user_init_fixed_mode_refuted : forall (other : kind -> nat -> mat -> mat) (E : env (M := mat)) (msub madd : mat -> mat -> mat)
+  (n_outer n_inner : nat), 0 < n_inner ->
+  let sp := zkeywords (fun k => match k with KNonNeg => ZScalar 1 | _ => ZNone end) in
+  let A : mat := [[-1; 2]; [3; 4]]%R in
+  exists fs, constrained_cp [] (op_c12 INR (fun p => p) other) (zvalidate nat_truthy' 3 sp) msub madd E 3 (IUser [A; A; A]) [0] n_outer n_inner [] = Ok fs /\
+             nth 0 fs [] = A /\ ~ Forall (fun a : R => (0 <= a)%R) (concat (nth 0 fs [])).
+Proof. exact user_init_fixed_mode_refuted. Qed.
+Print Assumptions C11_user_init_fixed_mode_refuted.
+
+(* the l1 ball (soft_sparsity) on points that are already INSIDE the ball: the coded operator is not the identity there (C12's known,
+   deliberately unfixed behaviour: it projects |v| onto the simplex of sum p, which moves inside points outwards) - but the output is
+   still IN the ball, as C11_soft_sparsity_end_to_end states for every input: [1/4; 0] -> [5/8; 0], [1/4; -1/4] -> [1/2; -1/2] (on the
+   sphere), radius 1; the zero vector stays *)
+Example C11_l1_ball_inside_points_stay_feasible :
+  soft_sparsity_prox Qops 1%Q [1 # 4; 0]%Q = [5 # 8; 0]%Q /\ (l1n Qops (soft_sparsity_prox Qops 1%Q [1 # 4; 0]%Q) <= 1)%Q /\
+  soft_sparsity_prox Qops 1%Q [1 # 4; - (1 # 4)]%Q = [1 # 2; - (1 # 2)]%Q /\ (l1n Qops (soft_sparsity_prox Qops 1%Q [1 # 4; - (1 # 4)]%Q) == 1)%Q /\
+  soft_sparsity_prox Qops 1%Q [0; 0]%Q = [0; 0]%Q.
+Proof. repeat split; vm_compute; try reflexivity; intros H; discriminate H. Qed.
 
 (* the two raises that are not validation errors, on tags: fixed_modes = [0;1;2;2] / a user CP tensor with two factors, order 3 *)
 Example C11_corner_raises :
